@@ -102,6 +102,9 @@ let () =
   let ic = open_in file in
   let np = ref 2 and seqid = ref "" and idx = ref 0 in
   let regs = ref [] in
+  (* the operations of the current sequence that are constructors of [op] (up to the first text
+     operation), to evaluate the theorem's precondition [ops_ok] on exactly what was generated *)
+  let seq_ops = ref [] and seq_open = ref true and nregs = ref 0 in
   let out = Buffer.create (1 lsl 16) in
   let flush_out () = print_string (Buffer.contents out); Buffer.clear out in
   let getreg r = List.nth !regs r in
@@ -118,15 +121,20 @@ let () =
        | [] -> ()
        | "#" :: _ -> ()
        | ["S"; id; p; r] ->
-         seqid := id; idx := 0; np := i p;
+         seqid := id; idx := 0; np := i p; nregs := i r;
+         seq_ops := []; seq_open := true;
          regs := List.init (i r) (fun _ -> mk_empty (nat_of_int !np))
        | ["E"] ->
+         let ops = List.rev !seq_ops in
+         let ok = ops_ok (nat_of_int !np) (nat_of_int !nregs) ops (List.init !nregs (fun _ -> N0)) in
+         prerr_string (Printf.sprintf "OPSOK %s %d %d\n" !seqid (if ok then 1 else 0) (List.length ops));
          Buffer.add_string out (Printf.sprintf "%s:E %s\n" !seqid
                                   (String.concat " " (List.map dump !regs)))
        | name :: args ->
          let target = ref (-1) in
          let obs = ref "-" in
          let run_step o t =
+           if !seq_open then seq_ops := o :: !seq_ops;
            let (rs, ob) = step (nat_of_int !np) o !regs in
            regs := rs; target := t;
            (match ob with None -> () | Some z -> obs := hex_of_z z) in
@@ -157,6 +165,9 @@ let () =
           | "merge", [rd; sd; rs; ss; z] -> run_step (OMerge (nt rd, n sd, nt rs, n ss, n z)) (i rd)
           | "insbig", [r; o; s; v] -> run_step (OInsertBig (nt r, n o, n s, z_of_hex v)) (i r)
           | "extbig", [r; o; s] -> run_step (OExtractBig (nt r, n o, n s)) (-1)
+          | ("parse" | "print" | "fmt" | "fmtr"), _ -> seq_open := false
+          | _ -> failwith ("bad op line: " ^ line));
+         (match name, args with
           | "parse", r :: rest ->
             (* the literal is the rest of the line after "parse r " ('_' stands for the empty string) *)
             let lit = (match rest with [] -> "" | ["_"] -> "" | l -> String.concat " " l) in
@@ -170,7 +181,8 @@ let () =
             obs := "\"" ^ string_of_ascii_list (formatState (getreg (i r)) (n base) (b drop)) ^ "\""
           | "fmtr", [r; base; o; s] ->
             obs := "\"" ^ string_of_ascii_list (formatRange (getreg (i r)) (n base) (n o) (n s)) ^ "\""
-          | _ -> failwith ("bad op line: " ^ line));
+          | ("parse" | "print" | "fmt" | "fmtr"), _ -> failwith ("bad op line: " ^ line)
+          | _ -> ());
          Buffer.add_string out
            (Printf.sprintf "%s:%d %s %s %s\n" !seqid !idx name !obs
               (if !target >= 0 then dump (getreg !target) else "-"));
